@@ -62,6 +62,16 @@ Theorem C16_null_removes : forall user conds replace t (orig : option obj) (new0
 Proof. exact null_removes. Qed.
 Print Assumptions C16_null_removes.
 
+(* A conditional field (conditionals=f, no replace) that the stored annotation already sets keeps the
+   stored value whatever non-null value the request gives it. *)
+Theorem C16_conditional_keeps : forall user conds t (o new0 : obj) f v ov,
+  NoDup (dom o) -> NoDup (dom new0) ->
+  oget f o = Some ov -> oget f new0 = Some v -> is_null v = false -> is_meta f = false ->
+  smem f conds = true ->
+  oget f (snd (updateJSON user conds false t (Some o) new0)) = Some ov.
+Proof. exact conditional_keeps. Qed.
+Print Assumptions C16_conditional_keeps.
+
 (* A field's stamps change exactly when its value does: for an ordinary field f that the request
    sets to a non-null v without setting f_user / f_time by hand and without protecting f as a
    conditional: if v differs from the stored value (or f is new) the stamps become (user, now);
